@@ -237,7 +237,9 @@ CFG = dict(
          "cut into callback steps and compared with the model's steps cell by cell (driver reads exactly; callback reads: model multiset "
          "<= impl multiset and equal support; writes exactly; number of steps; panic / number of outputs); tag rescan=1: some callback "
          "read at least two different indices. vrank on the same series x (pct, rev): trace cut at its writes, compared modulo ties. "
-         "nt=0 marks empty input.",
+         "nt=0 marks empty input. part=driver kind=custom_write_buf (audit YB): the default rolling_custom with a caller buffer of "
+         "another length lo in {0, 1, 3, len-1, len+1} for every len and window (tags buf=empty|bcast|mismatch): cells (lo, len), the "
+         "writes are bounded by the buffer, an exposed unwritten slot is reported; model term run_custom_write.",
     theorem_hint="Props/C10.v",
     level_text="Proof, drivers: running the driver model on the list of positions makes every fetched argument the index "
                "it was fetched from; theorems (all series lengths, all windows incl. 0 and > len): every unchecked read of every "
@@ -290,7 +292,24 @@ CFG = dict(
                "reads of sort_unstable_by inside vrank (the implementation's first segment is compared by inclusion), the reads of the "
                "internal Vec<usize>. Model corner reported: rolling2_apply_idx_default (Model/Driver.v) tests window 0 on the zipped series, "
                "the code on self (differs only for window 0, non-empty self, empty second series, iterator body: code panics, model "
-               "returns an empty result; no access on either side).",
+               "returns an empty result; no access on either side). "
+               "Audit YB (parts 14-20, 21 further theorems, notes/C10.md has the clause-by-clause matrix): a WHOLE call of every driver "
+               "(driver_call: the checks of the code in their order, then the trace; Run/RunC10.v run_trace is proved to be its encoding) is, "
+               "for every window and every pair of lengths and with NO hypothesis, either a panic before any access or an in-bounds trace "
+               "that writes 0..len-1 once each (nothing for the collected lazy forms) - the former hypotheses len <= len2, 1 <= w, "
+               "bad_window = false are replaced by the guards themselves, which are those of the value model (check2_to / check2_custom / "
+               "bad_window); the two-series window-index body's write-once statement (was missing); the clamp window.min(len): a larger "
+               "window IS window = len (traces, outcomes, rejection); all six one-series entry points for every window are a complete "
+               "result of the input's length or the panic of the code's check; a caller buffer of ANY length handed to the default "
+               "rolling_custom (write_trust_iter: empty buffer - nothing; one-element series - its item in every slot of the buffer once; "
+               "otherwise Err and a clean unwrap panic with no access; writes bounded by the BUFFER) - now also exercised "
+               "(kind=custom_write_buf); the trusted-length forms: the size_hint the raw collector trusts equals the number of items every "
+               "lazy body yields (every window incl. 0, every pair of lengths), so collect_trusted(hint, items) IS the returned outcome, "
+               "and likewise for varg_partition / vpartition (kth+1); the exact panic condition of vpartition (iff); the write lists fed to "
+               "the MaybeUninit buffer model: in-order writes and vrank's permuted writes leave a complete buffer whose slot j holds the "
+               "value stored at j, any store sequence that misses a slot is never exposed. Nothing found false; nothing partial. Still open: "
+               "norm.rs lines 146-151 (body of the both-extremes-expired rescan) are never executed by the run (believed unreachable, not "
+               "proved).",
     level_note="Trusted: Coq kernel; model of view.rs driver bodies; the instrumented containers implement tevec's public traits "
                "in the harness (Vec's own fast-path reads cannot be observed, only its writes); std Vec internals of vrank "
                "(idx_sorted) are not instrumented; memory effects themselves (an actual out-of-bounds write) are outside Coq.",
